@@ -150,7 +150,8 @@ def run(ctx):
                 flush()
                 cur, reads, stores, first = names, [], False, n
             for c in f.calls(root=st):
-                if c.get('callee') == 'psf_binheader_readf':
+                if c.get('callee') == 'psf_binheader_readf' and 'b' in (f.unwrap(f.args(c)[1]).get('s') or ''):
+                    # the read that fills the buffer the string is stored from (a `j` skip of an over-long chunk in the same arm is another path)
                     reads += [f.s(a) for a in f.args(c)[2:]]
                 if c.get('callee') == 'psf_store_string':
                     stores = True
